@@ -689,6 +689,17 @@ func Run(c *corr.Ctx) {
 	for i := 0; i < n; i++ {
 		r.raw(g.raw(), fmt.Sprintf("raw-%d", i))
 	}
+	// replays of an accepted Authorization header in another context, every method set x request method
+	k := 0
+	for _, ms := range [][]int{nil, {0}, {1}, {2}, {0, 1, 2}} {
+		for _, rm := range []string{"DESCRIBE", "GET_PARAMETER"} {
+			for _, kind := range []string{"replay-newpass", "replay-newpath"} {
+				r.serverCase(&Server{Methods: ms, User: "guest", Pass: "guestpass", ReqMethod: rm, Path: "/public/cam?x=1",
+					Steps: []Step{{Kind: "nocred"}, {Kind: "right"}, {Kind: "right"}, {Kind: kind, Alt: "secret"}}}, fmt.Sprintf("server-replay-%d", k))
+				k++
+			}
+		}
+	}
 	n = c.N(300, 3000)
 	for i := 0; i < n; i++ {
 		r.serverCase(g.server(), fmt.Sprintf("server-%d", i))
